@@ -72,7 +72,7 @@ def one(name, args):
             meta['repo_suite_passes'] = bool(re.search(r'\d+ passed', meta['repo_suite_with_patch'])) and 'failed' not in meta['repo_suite_with_patch']
             meta['repo_suite_s'] = round(time.time() - t0)
         if args.detect:
-            checks = [prop] + {'C15-1': ['C02'], 'C14-2': [], 'C01-2': ['C19'], 'C02-2': ['C16', 'C03'], 'C04-2': ['C19'], 'C08-1': ['C04'], 'C10-1': []}.get(name, [])
+            checks = [prop] + {'C15-1': ['C02'], 'C14-2': [], 'C01-2': ['C19'], 'C02-2': ['C16', 'C03'], 'C04-2': ['C19'], 'C08-1': ['C04'], 'C10-1': [], 'C06-4': ['C08']}.get(name, [])
             meta['detected_by'] = {}
             for c in checks:
                 log = os.path.join(VERIF, '.tlc', f'seed-{name}-{c}.log')
